@@ -1471,7 +1471,8 @@ LEVEL_TEXT = ("Machine-checked Coq theorems over a model of Problem.populations/
               "long-lived Problem / Results objects whose returned containers the caller modifies between queries; the direct "
               "oracle compares the raw recorded costs exactly.")
 LEVEL_NOTE = ("Trusted: Coq kernel + vm_compute; FloatAxioms for the binary64 order instance; classical-reals axioms for gd; the "
-              "hand-written models and the Python harness. Sorted listings are proved paired up to `==` on keys (exactly when "
+              "hand-written models, the Python harness and the translator tools/py2coq.py (Problem.population / last_population / "
+              "populations and Results.find_optimum are translated on every run and proved equal to the model). Sorted listings are proved paired up to `==` on keys (exactly when "
               "`==` is identity: -0.0/0.0 keys can swap places). Cases that differ from the model only in an order the property "
               "does not fix (rows/groups, ties) are counted as order-only differences, not as mismatches (0 on the current code). "
               "The model takes tag, vector, costs, front number and criteria as the recorded data; that the code reads nothing "
